@@ -443,6 +443,15 @@ fn corpus_cases(thorough: bool) -> Vec<Case> {
 
 fn check_user_sink<C: BitRepr>(rep: &Report, local: &mut Local, kind: &str, c: &C, case: &Case) {
     local.count("components_to_user_sink", 1);
+    // a write of the same component that the sink refuses (at its first or at its second operation,
+    // alternating) precedes the judged writes: what a refused write leaves on the thread must not reach
+    // the next sink
+    let k = local.evals as usize % 2 + usize::from(kind == "stream") * 3;
+    let _ = panicx::catch(|| {
+        let mut f = crate::bitmodel::FailingSink::new(k, crate::bitmodel::Flavour::Full);
+        let _ = c.write(&mut f);
+    });
+    local.count("refused_writes_before_the_judged_ones", 1);
     let r = panicx::catch(|| {
         let mut a = ByteSink::new();
         let mut b = ModelSink::default();
@@ -480,8 +489,8 @@ fn run_user_sink(rep: &Arc<Report>, thorough: bool) {
         Duration::from_secs(300),
         |i| cases[i * chunk].json(),
         |i, local| {
-            for c in &cases[i * chunk..((i + 1) * chunk).min(n)] {
-                local.evals += 1;
+            for (j, c) in cases[i * chunk..((i + 1) * chunk).min(n)].iter().enumerate() {
+                local.evals += 1 + (j as u64 & 1);
                 let samples = c.input.samples();
                 let Ok(s) = subject::encode(c, &samples, Mode::St) else { continue };
                 if s.count_bits() > (1 << 26) {
@@ -556,7 +565,7 @@ pub fn run(args: &Args, rep: &Arc<Report>) {
     sweep::<ModelSink>(rep, &alpha, &reduced, thorough);
     run_user_sink(rep, thorough);
     rep.set_rule(&format!(
-        "operation alphabet of {} ops (write<u8..u64>, write_msbs/write_lsbs for every n in 0..=BITS, write_twoc for every width 1..=64, write_zeros, align_to_byte, write_bytes_aligned of 0..=3 bytes; {} operand values); for MemSink<u8>, MemSink<u64> and a user-defined sink that implements only the required operations (so that the trait's provided write_bytes_aligned / write_twoc / write_zeros run): every start offset 0..=63 x every op x every op, followed by a probe write(0xFFu8); after every step len(), stored bits, zero tail (and at depth 1 write_to_byte_slice / to_bitstring) are compared with an ideal MSB-first bit string{}; plus: every stream/frame/header/subframe of a corpus written into a user sink implementing only the required methods, into ByteSink and into MemSink<u64> must hold the same bits; non-trivial = a (sink, start offset, first op) whose whole fan-out was executed and agreed",
+        "operation alphabet of {} ops (write<u8..u64>, write_msbs/write_lsbs for every n in 0..=BITS, write_twoc for every width 1..=64, write_zeros, align_to_byte, write_bytes_aligned of 0..=3 bytes; {} operand values); for MemSink<u8>, MemSink<u64> and a user-defined sink that implements only the required operations (so that the trait's provided write_bytes_aligned / write_twoc / write_zeros run): every start offset 0..=63 x every op x every op, followed by a probe write(0xFFu8); after every step len(), stored bits, zero tail (and at depth 1 write_to_byte_slice / to_bitstring) are compared with an ideal MSB-first bit string{}; plus: every stream/frame/header/subframe of a corpus written into a user sink implementing only the required methods, into ByteSink and into MemSink<u64> must hold the same bits (each comparison is preceded by a write of the component that the sink refuses at its first / second operation); non-trivial = a (sink, start offset, first op) whose whole fan-out was executed and agreed",
         alpha.len(),
         if thorough { "all 7" } else { "3 of 7" },
         if thorough { format!("; depth 3 over a reduced alphabet of {} ops", reduced.len()) } else { String::new() }
